@@ -1,6 +1,7 @@
 """C01 — every widget renders a canvas of exactly the size its container asked for."""
 from __future__ import annotations
 
+import copy
 import warnings
 
 from hypothesis import strategies as st
@@ -10,8 +11,9 @@ from urwid.widget.widget import WidgetWarning
 from vlib import cells as C
 from vlib import gen_text as T
 from vlib import gen_widgets as G
+from vlib import mut_widgets as MU
 from vlib import widths as W
-from vlib.runner import Discard, Violation
+from vlib.runner import Discard, Violation, innermost_is_urwid
 
 PROPERTY = "C01"
 LEVEL = "exploration"
@@ -22,15 +24,30 @@ RULE = (
     "PopUpLauncher/PopUpTarget/Scrollable/ScrollBar; containers Pile/Columns/GridFlow/Frame/Overlay/ListBox; "
     "texts with ASCII, double-width, combining, DEC line-drawing characters, str and bytes) x 3 encodings x "
     "EVERY mode the built widget reports in sizing() x sizes 1..40 x 1..20 (1 and 2 over-weighted) x both "
-    "focus values; sweep: every leaf and single-level decoration at every width 1..12 and height 1..6. "
+    "focus values; each (tree, mode, size, focus) is rendered cold and then once more at the root over the "
+    "children's cached canvases while the first canvas is still referenced. Then a history of 0..3 mutations: "
+    "the tree is rendered in every reported mode (canvases held, as a Screen holds what it drew), ONE public "
+    "mutator of ONE node is called (vlib/mut_widgets.py: set_text / set_edit_text / set_label / set_state / "
+    "set_data / align / wrap / width / focus / options / scroll position ..., exchange of a decoration's child, "
+    "contents assign / insert / delete on Pile / Columns / GridFlow / ListBox / Frame / Overlay - each in one of the "
+    "spellings urwid ships, current or deprecated-but-supported: original_widget= / w= / set_w / body= / set_body / "
+    "box_widget= / _w= / _set_w, contents / widget_list / cells / item_types / column_types, header= / set_header / "
+    "contents['header'], focus_position= / set_focus / focus_item= / focus_col= / set_focus_column / focus_cell=, "
+    "method / writable property), new widgets generated type-directed for the slot they go to, and the tree is "
+    "rendered again in every mode it now reports: the whole size contract is demanded of that rendering too. "
     "Non-trivial: tree of >= 2 levels, or its text has a wide / zero-width / DEC character, or a dimension "
-    "is 1; distinct by hash of (spec, size, focus, encoding)."
+    "is 1; distinct by hash of (spec, size, focus, encoding, mutation history)."
 )
 ASSUMPTIONS = [
     "wcwidth table + Python codecs are the width reference (vlib/widths.py)",
     "a tree during whose construction/rendering a container emits its own sizing warning (WidgetWarning) is "
     "mis-built and discarded, not a failure",
-    "depth <= 4 / sizes <= 40x20 are cost bounds",
+    "depth <= 4 / sizes <= 40x20 / histories of <= 3 mutations, new widgets of depth <= 1 (2 thorough) are cost bounds",
+    "a mutation keeps the tree valid by the rules the generator builds by (a slot gets a widget of the sizing mode it "
+    "needs, option values stay in the generator's ranges, margins and borders are not changed); a public setter that "
+    "itself raises is outside this property (the case is discarded and counted as mutator-raised:<name>)",
+    "rows() / pack() are computed with the canvas cache emptied after the rendering under test, so they are the "
+    "widget's own calculation for its current state and not read back from a cached canvas",
 ]
 
 
@@ -108,26 +125,87 @@ def _validate(w, canv, size, focus, mode_name, wmode, what, cold):
     return canv
 
 
+_CTX = None
+# the spec describing the tree as it is now (after the mutations performed so far) of the case under evaluation:
+# KNOWN predicates look at it as well, a known finding may sit in a part the history exchanged or changed
+_EFFECTIVE = {"case": None, "spec": None}
+
+
+def _count(label):
+    if _CTX is not None and _CTX.failure is None:
+        _CTX.count(label)
+
+
+def _modes(w):
+    return sorted(str(m.value if hasattr(m, "value") else m) for m in w.sizing())
+
+
+def _render_all(w, cols, rows, focus):
+    """one rendering for every mode the widget reports now: [(mode, size, canvas)]"""
+    out = []
+    for m in _modes(w):
+        size = _size_for(m, cols, rows)
+        if m == "fixed" and 0 in tuple(w.pack((), focus)):
+            continue  # zero-area fixed widget: outside the quantifier, see check_render
+        out.append((m, size, w.render(size, focus)))
+    return out
+
+
+def check_mutation(w, op, spec, slot, case, wmode, rec_sizes, log):
+    """one step of the history: the tree as a screen shows it (every reported mode rendered, canvases held) ->
+    one public mutator -> rendered again over whatever the canvas cache still offers -> the size contract again"""
+    cols, rows, focus = case["cols"], case["rows"], case["focus"]
+    urwid.CanvasCache.clear()
+    held = _render_all(w, cols, rows, focus)
+    try:
+        done = MU.apply(op, spec, w, slot, case["enc"], rec_sizes)
+    except Exception as e:
+        if innermost_is_urwid(e):
+            # the setter itself refused: not a rendering, the property is silent about it
+            _count(f"mutator-raised:{type(e).__name__}")
+            raise Discard() from None
+        raise
+    if done is None:
+        _count("op:not-applicable")
+        return
+    name, desc = done
+    log.append(desc)
+    _count(f"mut:{name}")
+    what = f"[after {'; '.join(log)}] "
+    shown = _render_all(w, cols, rows, focus)
+    for m, size, canv in shown:
+        _validate(w, canv, size, focus, m, wmode, f"[{m}] {what}", cold=True)
+    return
+
+
 def check_tree(case):
-    """case: {"enc", "spec", "cols", "rows", "focus"}"""
+    """case: {"enc", "spec", "cols", "rows", "focus"[, "mode": the sizing mode the tree was generated for,
+    "muts": [op, ...] (vlib/mut_widgets.py)]}"""
     enc = case["enc"]
     wmode = W.use_encoding(enc)
+    spec = copy.deepcopy(case["spec"])
+    _EFFECTIVE.update(case=case, spec=spec)
+    muts = case.get("muts") or []
+    log = []
     with warnings.catch_warnings(record=True) as rec:
         warnings.simplefilter("always")
         try:
             rec_sizes = []
-            w = G.build(case["spec"], enc, rec_sizes)
-            modes = sorted(str(m.value if hasattr(m, "value") else m) for m in w.sizing())
-            for m in modes:
-                size = _size_for(m, case["cols"], case["rows"])
-                try:
+            w = G.build(spec, enc, rec_sizes)
+            try:
+                for m in _modes(w):
+                    size = _size_for(m, case["cols"], case["rows"])
                     check_render(w, size, case["focus"], m, wmode, what=f"[{m}] ")
-                except Exception:
-                    # mis-built tree (a container warned about its sizing combination) or an outer size
-                    # with no room for the tree's own fixed margins/borders: outside the quantifier
-                    if any(issubclass(r.category, WidgetWarning) for r in rec) or G.starved(rec_sizes):
-                        raise Discard() from None
-                    raise
+                for op in muts:
+                    check_mutation(w, op, spec, case["mode"], case, wmode, rec_sizes, log)
+            except Discard:
+                raise
+            except Exception:
+                # mis-built tree (a container warned about its sizing combination) or an outer size
+                # with no room for the tree's own fixed margins/borders: outside the quantifier
+                if any(issubclass(r.category, WidgetWarning) for r in rec) or G.starved(rec_sizes):
+                    raise Discard() from None
+                raise
         finally:
             urwid.CanvasCache.clear()
     if any(issubclass(r.category, WidgetWarning) for r in rec):
@@ -140,19 +218,22 @@ _dim_c = st.one_of(st.sampled_from([1, 1, 2, 2, 3]), st.integers(1, 12), st.inte
 _dim_r = st.one_of(st.sampled_from([1, 1, 2, 3]), st.integers(1, 8), st.integers(1, 20))
 
 
-def tree_cases(max_depth):
+def tree_cases(max_depth, max_ops=3, new_depth=1):
     def for_enc(enc):
-        return st.fixed_dictionaries(
-            {
-                "enc": st.just(enc),
-                "spec": st.sampled_from(["flow", "flow", "box", "box", "fixed"]).flatmap(
-                    lambda m: st.integers(0, max_depth).flatmap(lambda d: G.widget(m, d, enc))
-                ),
-                "cols": _dim_c,
-                "rows": _dim_r,
-                "focus": st.booleans(),
-            }
-        )
+        def for_mode(mode):
+            return st.fixed_dictionaries(
+                {
+                    "enc": st.just(enc),
+                    "mode": st.just(mode),
+                    "spec": st.integers(0, max_depth).flatmap(lambda d: G.widget(mode, d, enc)),
+                    "cols": _dim_c,
+                    "rows": _dim_r,
+                    "focus": st.booleans(),
+                    "muts": MU.ops(enc, max_ops, new_depth),
+                }
+            )
+
+        return st.sampled_from(["flow", "flow", "box", "box", "fixed"]).flatmap(for_mode)
 
     return st.sampled_from(T.ENCODINGS).flatmap(for_enc)
 
@@ -177,15 +258,26 @@ def _classes(case):
         out.append("rows=1")
     for s in G.walk(spec):
         out.append(f"has:{s['cls']}")
+    muts = case.get("muts") or []
+    out.append(f"history:{len(muts)}-ops")
+    for op in muts:
+        out.append(f"op:new-{op['mode']}-widget" if "new" in op else "op:value")
     return sorted(set(out))
 
 
 def shard(ctx):
-    ctx.given("tree", tree_cases(ctx.scale(3, 4)), ctx.scale(2500, 25000), nontrivial=_nontrivial, classify=_classes)
+    global _CTX
+    _CTX = ctx
+    ctx.given("tree", tree_cases(ctx.scale(3, 4), 3, ctx.scale(1, 2)), ctx.scale(2500, 25000), nontrivial=_nontrivial, classify=_classes)
 
 
 def _has(case, pred):
-    return any(pred(s) for s in G.walk(case["spec"]))
+    """some widget of the case satisfies pred: in the tree as generated, among the new widgets its mutation history
+    carries, or in the tree as the history had made it when the evaluation of this very case stopped"""
+    specs = [case["spec"], *MU.op_specs(case.get("muts") or [])]
+    if _EFFECTIVE["case"] is case:
+        specs.append(_EFFECTIVE["spec"])
+    return any(pred(s) for sp in specs for s in G.walk(sp))
 
 
 KNOWN = {
